@@ -4,13 +4,14 @@ namespace RsomeV.Drv
 open Lean
 
 /-- the well-formedness hypotheses of `C03.mixSupport_lift` / `C03.dro_sound_compiled` on the
-inputs (`hst`, `hqp`, `hxl`, `hxp`, `hqe`, `hidx`), checked on the in-range entries -/
+inputs (`hst`, `hqp`, `hxl`, `hxp`, `hqe`, `hxle`, `hxe`, `hidx`), checked on the in-range entries -/
 def wfInputs (pro : ConeProg ℚ) (exps : List (ConeProg ℚ × List ℕ)) : Bool :=
   ((List.range pro.lp.nr).all fun i => (List.range pro.lp.nc).all fun j =>
       decide (pro.lp.a i j = 0) || pro.st i j) &&
   (pro.qmat.all fun q => q.all fun j => decide (j < pro.lp.nc)) &&
   (pro.xmat.all fun e => e.length == 3 && e.all fun j => decide (j < pro.lp.nc)) &&
   (exps.all fun e => (e.1.qmat.all fun q => q.all fun j => decide (j < e.1.lp.nc)) &&
+      (e.1.xmat.all fun x => x.length == 3 && x.all fun j => decide (j < e.1.lp.nc)) &&
       e.2.all fun s => decide (s < pro.lp.nc))
 
 /-- op "mix_support": model of `Ambiguity.mix_support(primal=True)`.
